@@ -335,7 +335,88 @@ def suite_by_name(name):
     return next(s for s in SUITES if s.name == name)
 
 
+def main_differential(r, n_cases):
+    """The digest module's own command line (python -m picked_group_fdr.digest: peptide map, iBAQ table and Prosit input in ONE call,
+    any subset of the three) against the library functions the models are tied to, called one by one on freshly built parameter
+    objects: every written file must be what the function alone gives for the options on the command line."""
+    import csv
+    import sys
+    import tempfile
+    from picked_group_fdr import digest
+    from picked_group_fdr import digestion_params as dp
+    n = 0
+    for k in range(n_cases):
+        rng = r.rng
+        d = tempfile.mkdtemp(prefix="c09main_", dir=core.scratch())
+        text, _ = gen_fasta_text(rng, n=rng.randint(2, 5), ids=[f"sp|P{i:03d}|NAME{i}_HUMAN" for i in range(5)])
+        fa = os.path.join(d, "db.fasta")
+        with open(fa, "w", newline="") as fh:
+            fh.write(text)
+        nsets = rng.choice([1, 1, 2])
+        opts = {"--enzyme": [rng.choice(["trypsin", "lys-c", "chymotrypsin", "asp-n", "trypsinp"]) for _ in range(nsets)],
+                "--cleavages": [str(rng.choice([0, 1, 2])) for _ in range(nsets)],
+                "--min-length": [str(rng.choice([1, 3, 5, 7]))] * nsets,
+                "--max-length": [str(rng.choice([8, 20, 35, 60]))] * nsets,
+                "--digestion": [rng.choice(["full", "full", "semi"]) for _ in range(nsets)]}
+        argv = ["digest", "--fasta", fa]
+        for o, v in opts.items():
+            argv += [o] + v
+        wanted = [w for w in ("map", "ibaq", "prosit") if rng.random() < 0.7] or ["map", "ibaq"]
+        if k % 3 == 0:
+            wanted = ["map", "ibaq"] + (["prosit"] if rng.random() < 0.5 else [])
+        paths = {"map": os.path.join(d, "map.tsv"), "ibaq": os.path.join(d, "ibaq.tsv"), "prosit": os.path.join(d, "prosit.csv")}
+        flags = {"map": "--peptide_protein_map", "ibaq": "--ibaq_map", "prosit": "--prosit_input"}
+        for w in wanted:
+            argv += [flags[w], paths[w]]
+
+        def fresh():
+            old = sys.argv
+            sys.argv = argv
+            try:
+                return dp.get_digestion_params_list(digest.parse_args())
+            finally:
+                sys.argv = old
+        n += 1
+        problem = None
+        try:
+            old = sys.argv
+            sys.argv = argv
+            try:
+                digest.main(argv[1:])
+            finally:
+                sys.argv = old
+
+            def cells(path, delim):
+                with open(path, newline="") as fh:
+                    return [row for row in csv.reader(fh, delimiter=delim)]
+            if "map" in wanted:
+                want = [[pep, ";".join(ps)] for pep, ps in digest.get_peptide_to_protein_map_from_params([fa], fresh()).items()]
+                if cells(paths["map"], "\t") != want:
+                    got = cells(paths["map"], "\t")
+                    problem = (f"--peptide_protein_map: {len(got)} rows written, the map function alone gives {len(want)}; first difference: "
+                               f"{next((a for a in want if a not in got), None) or next((a for a in got if a not in want), None)}")
+            if problem is None and "ibaq" in wanted:
+                want = [[p_, str(c)] for p_, c in digest.get_num_ibaq_peptides_per_protein([fa], fresh()).items()]
+                if cells(paths["ibaq"], "\t") != want:
+                    problem = "--ibaq_map: the written table differs from get_num_ibaq_peptides_per_protein on fresh parameters"
+            if problem is None and "prosit" in wanted:
+                want = [["modified_sequence", "collision_energy", "precursor_charge"]]
+                for pep in digest.get_peptide_to_protein_map_from_params([fa], fresh()):
+                    if digest.is_valid_prosit_peptide(pep):
+                        want += [[pep, "30", str(c)] for c in (2, 3, 4)]
+                if cells(paths["prosit"], ",") != want:
+                    problem = "--prosit_input: the written peptides differ from the map function's keys on fresh parameters"
+        except Exception as e:
+            problem = f"raised {type(e).__name__}: {e}"[:200]
+        if problem:
+            r.violation("property-failure", {"suite": "main_differential", "argv": argv, "fasta_text": text, "outputs_requested": wanted,
+                                             "problem": problem}, True, f"digest command line ({' + '.join(wanted)}): {problem}"[:400])
+            return n
+    return n
+
+
 def run(r: core.Runner):
+    r.traces = (r.traces or 0) + main_differential(r, core.tier_n(r.tier, 40, 600))
     r.assumptions += [
         "FASTA identifiers are distinct, headers are non-empty, identifiers contain no ';' (the tool's list separator)",
         "text decoding / universal newlines and the csv module are the runtime's; lines are obtained with Python's own open()",
